@@ -138,7 +138,13 @@ def r08c(ctx):
             idx = [s for s in walk_no_nested(f.node) if isinstance(s, ast.Subscript) and isinstance(s.slice, ast.Name)
                    and any(isinstance(a, ast.For) and isinstance(a.iter, ast.Call) and call_name(a.iter) in ("range", "enumerate")
                            for a in [x for x in ast.walk(f.node) if isinstance(x, ast.For)])]
-            if zips:
+            positional = [c for c in walk_no_nested(f.node) if isinstance(c, ast.Call)
+                          and (call_name(c) or "").split(".")[-1] in ("FixedLengthSequenceEdit", "EditDistance")]
+            if positional:
+                ctx.violation("R08c", f.file, f.short, positional[0], f"{f.short} positional edit",
+                              f"`{norm(positional[0], 60)}`: an unordered node (mapping / multiset) is diffed with an "
+                              f"order-aligned edit, so cost and pairing depend on the order keys happen to be stored in")
+            elif zips:
                 ctx.violation("R08c", f.file, f.short, zips[0], f"{f.short} positional pairing",
                               f"`{norm(zips[0], 60)}` pairs the two mappings' items by position: reordering keys changes which "
                               f"items are paired")
